@@ -43,6 +43,10 @@ def hx(s):
     return s.encode().hex() if s else '-'
 
 
+def unhx(h):
+    return '' if h == '-' else bytes.fromhex(h).decode('utf-8', 'replace')
+
+
 # ----------------------------------------------------------------------------- time zones
 
 _ZT = {}
@@ -496,8 +500,108 @@ def gen_m2(rnd, tier):
         cases.append({'lines': lines, 'tags': {'family': fam, 'zone': zn, 'transition_window': bool(want_tr)}})
     cases += gen_month_family(random.Random(rnd.random()), tier)
     cases += gen_transition_families(random.Random(rnd.random()), tier)
+    cases += gen_parse_families(random.Random(rnd.random()), tier)
     cases += directed_m2()
     return cases
+
+
+# strings for the parser: hand-made corner cases of ParseTimeRange / ParseTimeSpec / ProcessTimeRanges ...
+PARSE_K = ['', ' ', 'monday', 'monday ', ' monday', 'monday  2', 'monday 2 ', 'monday 2 march extra', 'monday 2 marchx', 'Monday', 'MONDAY',
+           'mon', 'day', 'day ', 'day x', 'day 1.5', 'day +5', 'day -0', 'day 007', 'day 1 2 3', 'february', 'february 30', 'february 1 - 3',
+           'day 1 - 15', 'day 1 -15', 'day 1- 15', 'day 1 - ', 'day 1 -  15', ' - day 3', 'monday - friday', 'monday - 3', 'monday 1 - 3',
+           '2034-03-25', '2034-3-25', '2034-03-32', '2034-13-01', '2034-00-10', '2034-03-00', '20a4-03-25', '2034/03/25', '2034-03-25 / 2',
+           '2034-03-25/2', 'monday/2', 'monday / 2', 'monday /2', 'day 1 - 15 / 2', 'day 1 - 15 /', 'day 1 - 15 / x', 'day 1 - 15 / 2 / 3',
+           'day 1 - 15 / 0', 'day 1 - 15 / -2', 'day 1 - 15 /  3 ', 'day 1 - 15 / +3', 'day 1 - 15/2', 'monday 0', 'monday -0', 'monday 00',
+           'monday +0', 'monday +1', 'monday 1 march - friday 2 march', 'monday\t2', ' monday - friday ', 'day 99999999999999999999',
+           'day 9223372036854775807', 'day 9223372036854775808', 'day 4294967297', 'day 4294967296', 'monday 4294967298', 'day --1', 'day -',
+           'day +', 'february -1 - -1', 'february 10 - -1', 'day 5 - 2034-03-25', '2034-03-25 - 2034-03-31', '2034-03-25 - 31',
+           'march 1 - april', 'march 1 - april 5', 'tuesday 2 march - 3', 'sunday -1 october', 'saturday 5 february', 'day 31', 'day 0',
+           '-001-01-01', '+034-03-25', '0000-01-01', '9999-12-31', 'monday2', 'daY 1', 'day\t1', 'day 1 / 2', 'day 1/2', 'day 1 /2']
+PARSE_V = ['', '09:00', '09:00-', '-17:00', '09:00-17:00-18:00', '09:00 - 17:00', '09:00-17:00,', ',09:00-17:00', '09:00-17:00,,10:00-11:00',
+           '9:0-17:0', '09-17', '09:00:00:00-17:00', '09:00:30-17:00:15', '25:00-26:00', '09:60-10:00', '09:00-09:00', 'a:00-b:00', '+9:00-17:00',
+           '09:00-17:00 ', ' 09:00-17:00', '09:00-17:00;10:00-11:00', '24:00-24:00', '00:00-24:00', '09:00-17:00,18:00-19:00:30', '0x9:00-17:00',
+           '09:00-17:00,18:00', '09::00-17:00', ':-:', '1:2:3-4:5:6', '09:00-17:00, 18:00-19:00', '00:00-48:00', '22:00-06:00', '09.00-17.00']
+# ... and odd but ACCEPTED definitions, which are also evaluated (tp_range + tp_upd; the parsed form comes from the parser model only)
+LENIENT_K = ['day 1 2 3', 'day +5', 'day 007', 'monday 2 march extra', 'day 1- 15', 'day 1 -15', 'monday/2', ' monday - friday ', 'day 1 - 15 /  3 ',
+             'day 4294967297', 'day 4294967296', 'monday 4294967298', 'monday +1', 'february 30', 'day 1 - 15/2', 'day 1 - 15 / +3', 'day 1 - 15 / 0',
+             'day 1 - 15 / -2', 'february 10 - -1', 'february -1 - -1', 'tuesday 2 march - 3', 'day -0', 'day 0', '2034-03-25/2', 'day 1/2',
+             'monday 1 - 3', 'march 1 - april 5', '2034-03-25 - 2034-03-31']
+LENIENT_V = ['9:0-17:0', '09:00:30-17:00:15', '25:00-26:00', '09:60-10:00', '09:00-09:00', '+9:00-17:00', '24:00-24:00', '1:2:3-4:5:6', '00:00-48:00',
+             '22:00-06:00', '00:00-24:00']
+
+
+def mutate(rnd, t):
+    if not t:
+        return rnd.choice(' -/:0x')
+    i = rnd.randrange(len(t))
+    r = rnd.random()
+    if r < 0.2:
+        return t[:i] + t[i + 1:]                                        # drop a character
+    if r < 0.45:
+        return t[:i] + rnd.choice(' -/:0x+1,\t') + t[i:]                  # insert one
+    if r < 0.55:
+        return t[:i] + t[i].upper() + t[i + 1:]
+    if r < 0.65:
+        return t[:i]                                                    # truncate
+    if r < 0.75:
+        return t + rnd.choice((' ', ' x', ' 1', ' march', '-', '/', ' / 2'))
+    if r < 0.85:
+        return t.replace(' ', '  ', 1)
+    if r < 0.95:
+        j = rnd.randrange(len(t))
+        return t[:min(i, j)] + t[max(i, j):]                            # cut a piece out
+    return ' ' + t
+
+
+def gen_parse_families(rnd, tier):
+    out = []
+
+    def esc(x):
+        return x.replace('\\t', '\t')
+    # 1. config validation of one ranges entry: accepted / rejected, code against the parser model (error vs. error)
+    for k in PARSE_K:
+        out.append({'lines': ['now %d' % T0, 'tp_parse k=%s' % hx(esc(k))], 'tags': {'family': 'm2-parse-corner', 'parse_part': 'daydef'}})
+    for v in PARSE_V:
+        out.append({'lines': ['now %d' % T0, 'tp_parse k=%s v=%s' % (hx('monday'), hx(v))], 'tags': {'family': 'm2-parse-corner', 'parse_part': 'timeranges'}})
+    n = {'quick': 300, 'thorough': 4000, 'search': 1500}.get(tier, 300)
+    for i in range(n):
+        zn = 'UTC'
+        anchor = T0 + rnd.randint(5, 700) * 86400
+        if rnd.random() < 0.5:
+            f, l, _ = rand_range_def(rnd, zn, anchor)
+            k, _ = daydef(f, l, rnd.choice((1, 1, 2, 3)), rnd)
+        else:
+            sp, _, _ = rand_spec(rnd, zn, anchor)
+            k, _ = daydef(sp)
+        v = times_str(rand_times(rnd, zn, rnd.choice(('one', 'two', 'to24', 'wrap', 'over24'))), rnd)
+        which = rnd.random()
+        if which < 0.6:
+            for _ in range(rnd.choice((1, 1, 2))):
+                k = mutate(rnd, k)
+            part = 'daydef'
+        elif which < 0.9:
+            for _ in range(rnd.choice((1, 1, 2))):
+                v = mutate(rnd, v)
+            part = 'timeranges'
+        else:
+            part = 'unmutated'
+        out.append({'lines': ['now %d' % T0, 'tp_parse k=%s v=%s' % (hx(k), hx(v))], 'tags': {'family': 'm2-parse-mutated', 'parse_part': part}})
+    # 2. odd but accepted definitions, evaluated
+    reps = {'quick': 3, 'thorough': 12, 'search': 6}.get(tier, 3)
+    for _ in range(reps):
+        for k in LENIENT_K:
+            zn = rnd.choice(ZONES)
+            v = rnd.choice(LENIENT_V + ['09:00-17:00'] * 4)
+            # eight-day windows over the end of February, the second week and the end of March 2034: every definition
+            # of the list matches in at least one of them
+            y, m, d = rnd.choice(((2034, 2, rnd.randint(24, 27)), (2034, 3, rnd.randint(8, 10)), (2034, 3, rnd.randint(22, 24))))
+            wb = mk_local(zn, days_from_civil(y, m, d) * 86400) + rnd.choice((0, 3600 * 6, 43200))
+            we = wb + 8 * 86400
+            lines = ['now %d' % T0, tz_line(zn, wb - 5 * 86400, we + 5 * 86400),
+                     'tp_pts ' + ','.join(str(p) for p in cal_probes(zn, wb, we, [(0, 86400), (32400, 61200)])), 'tp_new name=a',
+                     'tp_range name=a k=%s v=%s' % (hx(k), hx(v)), 'tp_upd name=a b=%d e=%d clear=1' % (wb, we)]
+            out.append({'lines': lines, 'tags': {'family': 'm2-parse-lenient', 'zone': zn}})
+    return out
 
 
 def transitions(zn):
@@ -654,8 +758,8 @@ def directed_m2():
     for s, a in (('monday 2', 'w.1.2.-1'), ('monday -1 may', 'w.1.-1.4'), ('february 3', 'm.1.3'), ('day -1', 'm.-1.-1'),
                  ('2034-03-26', 'd.2034.3.26'), ('day 1 - 15 / 2', 'm.-1.1~m.-1.15/2')):
         out.append({'lines': ['now %d' % T0, 'tp_parse k=%s ast=%s' % (hx(s), a)], 'tags': {'family': 'm2-directed-validate'}})
-    for s, a in (('monday 0', 'w.1.z.-1'), ('friday 0 march', 'w.5.z.2')):
-        out.append({'lines': ['now %d' % T0, 'tp_parse k=%s ast=%s limit=3' % (hx(s), a)], 'tags': {'family': 'm2-directed-validate-nth-zero'}})
+    for s in ('monday 0', 'friday 0 march'):
+        out.append({'lines': ['now %d' % T0, 'tp_parse k=%s limit=3' % hx(s)], 'tags': {'family': 'm2-directed-validate-nth-zero'}})
     # F-C08-b: Saturday 03:00 local, "friday" = "22:00-06:00", fresh window
     zn = 'Europe/Berlin'
     # 2033-06-04 is a Saturday
